@@ -293,6 +293,10 @@ func main() {
 							}
 						}
 					}
+					if has["internal"] != "" && rec.Snap.Get("X-Accel-Redirect") != "" {
+						// (the field is the inner handler's request to `internal`, never part of an answer)
+						fail("internal-redirect-header-reaches-the-client/"+class, "no X-Accel-Redirect field in the response of a site with `internal`")
+					}
 					if rec.Superfluous > 0 && b.panics != "after" {
 						fail("header-committed-twice/"+class, "a single header commit")
 					}
